@@ -64,7 +64,22 @@ impl Kanata {
             held_layer_active = true;
             if let Some(outputs_for_key) = self.key_outputs[usize::from(layer)].get(&event.code) {
                 log::debug!("key outs for active layer-while-held: {outputs_for_key:?};");
-                for osc in outputs_for_key.iter().rev().copied() {
+                // Non-modifiers first: repeating `b` is useful while repeating shift is not. The
+                // list is de-duplicated, so its order alone does not guarantee that a chord's
+                // key comes after its modifiers (e.g. `(multi b S-b)` yields [b, lsft]).
+                for osc in outputs_for_key
+                    .iter()
+                    .rev()
+                    .copied()
+                    .filter(|osc| !osc.is_modifier())
+                    .chain(
+                        outputs_for_key
+                            .iter()
+                            .rev()
+                            .copied()
+                            .filter(|osc| osc.is_modifier()),
+                    )
+                {
                     let kc = osc.into();
                     if self.cur_keys.contains(&kc)
                         || self.unshifted_keys.contains(&kc)
@@ -93,7 +108,19 @@ impl Kanata {
             // 2. current layer is layer-while-held but did not find a match in the code above, e.g. a
             //    transparent key was pressed.
             log::debug!("key outs for default layer: {outputs_for_key:?};");
-            for osc in outputs_for_key.iter().rev().copied() {
+            for osc in outputs_for_key
+                .iter()
+                .rev()
+                .copied()
+                .filter(|osc| !osc.is_modifier())
+                .chain(
+                    outputs_for_key
+                        .iter()
+                        .rev()
+                        .copied()
+                        .filter(|osc| osc.is_modifier()),
+                )
+            {
                 let kc = osc.into();
                 if self.cur_keys.contains(&kc)
                     || self.unshifted_keys.contains(&kc)
